@@ -220,3 +220,84 @@ def c10_bounded(tier="quick", seed=0):
         out.append(ob(oid, not b, "B", "bounded work on subjects up to 1e3/1e4" if not b else f"n={b[0][1]} time_limit={b[0][2]}: {b[0][4]}",
                       witness=(b[0][5] if b else None), confirmed=True if b else None, domain=len([x for x in rr if x[0] == p]), key=oid))
     return out
+
+
+# =======================================================================================================================
+# K1: the pattern parser's cursor and its numeric sub-parsers, for every pattern text and position
+# =======================================================================================================================
+from pyvc.api import *      # noqa: E402
+
+
+def _place_rx(ps, pat, pos):
+    ps.pattern = pat
+    ps.pos = pos
+
+
+def c_rxparser_peek(ps: Obj("RegexParser"), pat: Str, pos: IntRange(0, 2 ** 31)):
+    """_peek reads the current character without consuming, None at the end; never fails"""
+    assume(pos <= len(pat))
+    _place_rx(ps, pat, pos)
+    r = outcome(REAL, ps)
+    check("never-raises", r[0] == "ret")
+    if pos < len(pat):
+        check("reads-the-character", r[1] == pat[pos])
+    else:
+        check("None-at-the-end", r[1] is None)
+    check("cursor-stays", ps.pos == pos and ps.pattern == pat)
+
+
+def c_rxparser_advance(ps: Obj("RegexParser"), pat: Str, pos: IntRange(0, 2 ** 31)):
+    """_advance consumes exactly one character, none at the end; the cursor never passes the end of the pattern"""
+    assume(pos <= len(pat))
+    _place_rx(ps, pat, pos)
+    r = outcome(REAL, ps)
+    check("never-raises", r[0] == "ret")
+    if pos < len(pat):
+        check("returns-and-consumes-one", r[1] == pat[pos] and ps.pos == pos + 1)
+    else:
+        check("None-at-the-end-cursor-stays", r[1] is None and ps.pos == pos)
+    check("cursor-within-the-pattern", ps.pos <= len(pat) and ps.pattern == pat)
+
+
+def c_rxparser_match(ps: Obj("RegexParser"), pat: Str, pos: IntRange(0, 2 ** 31), ch: Str):
+    """_match(c) consumes the current character iff it is c"""
+    assume(pos <= len(pat) and len(ch) == 1)
+    _place_rx(ps, pat, pos)
+    r = outcome(REAL, ps, ch)
+    check("never-raises", r[0] == "ret")
+    hit = pos < len(pat) and pat[pos] == ch
+    check("result-says-whether-it-matched", r[1] is hit)
+    check("consumes-iff-matched", ps.pos == (pos + 1 if hit else pos) and ps.pattern == pat)
+
+
+def _native_rxp(name):
+    def make():
+        from microjs.regex.parser import RegexParser
+        return getattr(RegexParser, name)
+    return make
+
+
+register(c_rxparser_peek, id="C10.RegexParser._peek", prop="C10", target=method("microjs.regex.parser", "RegexParser._peek"), native=_native_rxp("_peek"))
+register(c_rxparser_advance, id="C10.RegexParser._advance", prop="C10", target=method("microjs.regex.parser", "RegexParser._advance"), native=_native_rxp("_advance"))
+register(c_rxparser_match, id="C10.RegexParser._match", prop="C10", target=method("microjs.regex.parser", "RegexParser._match"), native=_native_rxp("_match"))
+
+
+def inv_qstart(self, i):
+    return self.pos + 1 <= i
+
+
+def c_rxparser_is_quantifier_start(ps: Obj("RegexParser"), pat: Str, pos: IntRange(0, 2 ** 31)):
+    """_is_quantifier_start looks ahead over any pattern text without ever indexing outside it, consumes nothing, and says
+    yes only at a `{`"""
+    assume(pos <= len(pat))
+    _place_rx(ps, pat, pos)
+    r = outcome(REAL, ps)
+    check("never-raises", r[0] == "ret")
+    check("answers-a-boolean", r[1] is True or r[1] is False)
+    check("yes-only-at-a-brace", r[1] is False or (pos < len(pat) and pat[pos] == "{"))
+    check("consumes-nothing", ps.pos == pos and ps.pattern == pat)
+
+
+_QS = "microjs.regex.parser:RegexParser._is_quantifier_start"
+register(c_rxparser_is_quantifier_start, id="C10.RegexParser._is_quantifier_start", prop="C10", target=method("microjs.regex.parser", "RegexParser._is_quantifier_start"),
+         native=_native_rxp("_is_quantifier_start"), invariants={(_QS, 0): inv_qstart, (_QS, 1): inv_qstart})
